@@ -190,6 +190,55 @@ def replay_hkl(vals, fam, sym):
             return "unitcell(%s, %r).gethkls(%r): missing %s%s%s" % ([round(v, 6) for v in cell], sym, dsmax, miss[:4], (" forbidden listed %s" % extra[:3]) if extra else "", " duplicates" if dup else "")
     return None
 
+# ------------------------------------------------------------------------------------------------ call histories (cache state)
+class _FloorInt:
+    def __init__(s, t): s.t = t
+    def __int__(s): return EX.choose(z3.ToInt(s.t), 0, 64)
+    __index__ = __int__
+class MathProxy3(pysym.MathProxy):
+    def floor(s, x): return _FloorInt(T(x)) if isinstance(x, Sym) else math.floor(x)
+def _snapshot(kind, uc, ret):
+    if kind == "g": return [(float(p[0]), tuple(int(v) for v in p[1])) for p in ret]
+    return [(float(r), [tuple(int(v) for v in h) for h in uc.ringhkls[r]]) for r in uc.ringds]
+def make_history_run(UC, cell, sym, top):
+    def run():
+        ref = UC.unitcell(cell, sym); dmin = min(ref.ds(h) for h in ((1, 0, 0), (0, 1, 0), (0, 0, 1), (1, 1, 1), (2, 0, 0), (0, 2, 0), (0, 0, 2)) if not ref.absent(*h))
+        kinds = [EX.pick(["g", "m"]) for _ in range(3)]
+        lim = [z3.Real("lim%d" % i) for i in range(3)]
+        for x in lim: CTX.hyp += [x > Fraction(dmin) + Fraction(1, 500), x < Fraction(top)]          # at least one reflection below every limit (makerings reads peaks[0])
+        def call(uc, kind, x):
+            if kind == "g": return uc.gethkls(Sym(x))
+            uc.makerings(Sym(x), 0.001); return None
+        with pysym.patched((UC, "math", MathProxy3())):
+            uc = UC.unitcell(cell, sym)
+            for i in range(2): call(uc, kinds[i], lim[i])
+            got = _snapshot(kinds[2], uc, call(uc, kinds[2], lim[2]))
+            fresh = UC.unitcell(cell, sym); want = _snapshot(kinds[2], fresh, call(fresh, kinds[2], lim[2]))
+        return dict(kinds=kinds, lim=lim, got=got, want=want)
+    return run
+def on_history_path(res, pc, hyp, taken, status):
+    if res is None: return dict(bad=["path ended: " + status], key=str(taken))
+    bad = []
+    if res["got"] != res["want"]:
+        bad.append("%s(lim0), %s(lim1), then %s(lim2) gives %d entries %s..., a fresh object gives %d entries" % (res["kinds"][0], res["kinds"][1], res["kinds"][2], len(res["got"]), res["got"][-1:], len(res["want"])))
+    out = dict(bad=bad, key="%s|%s" % ("".join(res["kinds"]), taken), kinds=res["kinds"])
+    if bad:
+        m = EX.model([])
+        if m is not None: out["vals"] = [pysym.model_float(m, x) for x in res["lim"]]
+    return out
+def replay_history(UC, cell, sym, kinds, lims):
+    def call(uc, kind, x):
+        if kind == "g": return uc.gethkls(x)
+        uc.makerings(x, 0.001); return None
+    uc = UC.unitcell(cell, sym)
+    for i in range(2): call(uc, kinds[i], lims[i])
+    got = _snapshot(kinds[2], uc, call(uc, kinds[2], lims[2])); fresh = UC.unitcell(cell, sym); want = _snapshot(kinds[2], fresh, call(fresh, kinds[2], lims[2]))
+    if got != want:
+        names = {"g": "gethkls", "m": "makerings"}
+        return "unitcell(%s, %r): %s(%r), %s(%r), then %s(%r) gives %d %s (last %s); a fresh object gives %d (last %s)" % (cell, sym, names[kinds[0]], lims[0], names[kinds[1]], lims[1], names[kinds[2]], lims[2],
+                len(got), "reflections" if kinds[2] == "g" else "rings", got[-1:], len(want), want[-1:])
+    return None
+
 # ------------------------------------------------------------------------------------------------ makerings
 class HSym(Sym):
     __hash__ = object.__hash__
@@ -281,7 +330,10 @@ def main():
     def cache_run():
         uc, dsmax, inputs, gi = family(UC, "orthogonal", "P", 0)            # box 0: the walk itself is trivial here (it is covered above)
         L = z3.Real("L"); CTX.hyp.append(L > 0); uc.limit = LazySqrt(L); uc.peaks = SENT
-        out = gethkls(uc, dsmax); D = inputs["D"]
+        try: out = gethkls(uc, dsmax)
+        except (ValueError, TypeError):          # the code looked INSIDE the cached list (opaque here): what it does with it is judged by the call-history harness below
+            return dict(goals=[], inputs=dict(inputs, L=L))
+        D = inputs["D"]
         if out is SENT: goals = [("gethkls hands back the cached list only when asked for the cached limit", D == L)]
         else: goals = [("after a recomputation the cache holds the returned list and its limit", z3.BoolVal(uc.peaks is out and uc.limit is dsmax))]
         return dict(goals=goals, inputs=dict(inputs, L=L))
@@ -293,6 +345,25 @@ def main():
             if sorted(got) != sorted(want): return True, "unitcell(%s).gethkls(%r) after gethkls(%r) returns %d reflections, a fresh object returns %d" % ([a, b, c, 90, 90, 90], lim2, lim1, len(got), len(want))
         return False, "second call equals a fresh object's list"
     harness.run_identities(ck, "gethkls-cache", cache_run, replay_cache, 20000, keyfn=lambda n, l: "unitcell.py:gethkls:stale-cache")
+    # ---- call histories on one object: (limit, peaks) are written by gethkls AND by makerings; after any two calls a third call must answer like a fresh object.
+    # Concrete cell, SYMBOLIC limits (every real limit in the range is covered by the solver-decided forks of the real code).
+    hist_cells = [([1.0, 1.0, 1.0, 90, 90, 90], "P", 1.8)] + ([([1.0, 1.25, 1.6, 90, 90, 90], "P", 1.7), ([1.0, 1.0, 1.0, 90, 90, 90], "F", 2.1)] if thorough else [])
+    for cell, sym, top in hist_cells:
+        name = "call-histories[cell %s %s, limits in (min d*, %g)]" % (cell, sym, top)
+        symcore.Explorer.incremental = True
+        try: outs = harness.par_paths(ck, make_history_run(UC, cell, sym, top), on_history_path, depth=4, timeout_ms=20000)
+        finally: symcore.Explorer.incremental = False
+        ck.path(None, n=len(outs))
+        for o in outs: ck.path("%s:%s" % (name, o.get("key")), n=0)
+        badp = [o for o in outs if o["bad"]]
+        if not badp: ck.ok("%s: after any two calls of gethkls / makerings the third call returns what a fresh object returns, on all %d paths" % (name, len(outs))); continue
+        done = False
+        for o in badp[:8]:
+            if "vals" not in o:
+                ck.inconclusive.append("%s: %s" % (name, o["bad"][:2])); done = True; continue
+            msg = replay_history(UC, cell, sym, o["kinds"], o["vals"])
+            if msg: ck.violation(msg, "unitcell.py:gethkls/makerings:history", dict(cell=cell, symmetry=sym, kinds=o["kinds"], limits=o["vals"])); done = True; break
+        if not done: ck.not_reproduced("%s: model says %s" % (name, badp[0]["bad"][:2]))
     for n in range(1, (5 if thorough else 4) + 1):
         name = "makerings[n=%d]" % n
         outs = harness.par_paths(ck, make_rings_run(UC, n), on_rings_path(n), depth=3)
